@@ -112,6 +112,49 @@ def bounded_range_for(P, F, loop):
     return True, "range-for over %s" % norm.render(P, rng)[:50]
 
 
+def wrap_loop(P, F, loop):
+    """`while (fabs(v) OP B) v -= copysign(S, v);` with constants B, S > 0: each pass maps |v| to ||v| - S|.  For |v| >= S the value
+    falls by S; below S it becomes S - |v|, and the loop goes on for ever iff that is again inside the loop's range, i.e. iff some
+    x with x OP B also has S - x OP B: for `>=` that is S >= 2B (x = B when S = 2B), for `>` it is S > 2B.
+    (ok, why) or None when the loop is not of this shape."""
+    import sympy as sp
+    c = sc(loop["c"][0])
+    if c.get("k") != "BinaryOperator" or c.get("op") not in (">", ">="):
+        return None
+    l = sc(c["c"][0])
+    if not (l.get("k") == "CallExpr" and P.d(l.get("callee")).get("qn") in ("std::fabs", "fabs", "std::abs", "abs")):
+        return None
+    v = norm.render(P, l["c"][1], nocast=True).replace(" ", "")
+    body = loop["c"][1]
+    st = [x for x in (body["c"] if body.get("k") == "CompoundStmt" else [body]) if x is not None]
+    if len(st) != 1:
+        return None
+    a = sc(st[0])
+    if not (a.get("k") in ("CompoundAssignOperator", "CXXOperatorCallExpr", "BinaryOperator") and a.get("op") == "-="):
+        return None
+    kids = [z for z in a["c"] if z is not None]
+    if norm.render(P, kids[-2], nocast=True).replace(" ", "") != v:
+        return None
+    r = sc(kids[-1])
+    if not (r.get("k") == "CallExpr" and P.d(r.get("callee")).get("qn") in ("std::copysign", "copysign")):
+        return None
+    if norm.render(P, r["c"][2], nocast=True).replace(" ", "") != v:
+        return None
+    try:
+        symb = norm.Sym(P, F, inline_locals=True, hook=lambda n: sp.pi if n.get("k") == "DeclRefExpr" and P.d(n.get("r")).get("qn") == "WorldBuilder::Consts::PI" else None)
+        B, S = sp.nsimplify(symb(c["c"][1])), sp.nsimplify(symb(r["c"][1]))
+    except Exception:
+        return None
+    if B.free_symbols or S.free_symbols or not (B > 0 and S > 0):
+        return None
+    strict = c["op"] == ">"
+    diverges = (S > 2 * B) if strict else (S >= 2 * B)
+    if diverges:
+        return False, "while (|v| %s %s) v -= copysign(%s, v) never ends for |v| = %s (it maps that value onto itself or back into the range)" % (
+            c["op"], B, S, B if not strict else "slightly above %s" % B)
+    return True, "wrap loop |v| %s %s, step %s: every pass lowers |v| until it leaves the range" % (c["op"], B, S)
+
+
 def loops(P, rep, R, rule="LOOP"):
     rep.rule(rule, "every loop reachable from a query is of a bounded shape: a for loop whose single induction variable moves by "
                    "a non-zero constant towards a bound not modified in the body; a range-for over a container whose size the "
@@ -133,6 +176,16 @@ def loops(P, rep, R, rule="LOOP"):
                 rep.unknown(rule, "do-while with condition %s at %s in %s" % (norm.render(P, c), F.nloc(loop), F.qn))
                 continue
             if lk == "WhileStmt":
+                w = wrap_loop(P, F, loop)
+                if w is not None:
+                    okw, whyw = w
+                    if okw:
+                        rep.ok(rule, "%s:%s %s" % (F.qn.split("::")[-1], loop.get("l"), whyw), F.nloc(loop), F.qn)
+                    else:
+                        rep.violation(rule, "loop in %s: %s" % (F.qn, whyw), F.nloc(loop), F.qn, norm.render(P, loop["c"][0])[:100],
+                                      "the loop does not terminate for that value: a query may not return",
+                                      key="%s|%s|wrap" % (rule, F.qn), witness="a value exactly on the bound (longitude difference of exactly pi)")
+                    continue
                 rep.unknown(rule, "while loop at %s in %s (no bounded shape known for `%s`)" % (F.nloc(loop), F.qn, norm.render(P, loop["c"][0])[:60]))
                 continue
             ok, why = bounded_for(P, F, loop) if lk == "ForStmt" else bounded_range_for(P, F, loop)
